@@ -7,7 +7,7 @@
    (each with the threshold of the new context), explicit persists and queries. [g] is the capacity growth
    policy of [append] (arbitrary). [arun th ops] is the abstract journal: the last snapshot and the events
    recorded since, by the rule "snapshot of the full state when the count reaches the threshold". *)
-From MV Require Import Lib.ListX C09.PersistModel C09.PersistProofs.
+From MV Require Import Lib.ListX C09.PersistModel C09.PersistProofs C09.OrderModel C09.OrderProofs C09.OrderRun.
 
 (* Refinement: for every growth policy, threshold and history, the outputs of the heap/slice model (results of
    StateChanged, message and sender seen after it, records handed to Storage.Save, messages delivered during
@@ -104,6 +104,95 @@ Theorem C09_record_first_recovery_refuted :
 Proof. exact record_first_recovery_refuted. Qed.
 Print Assumptions C09_record_first_recovery_refuted.
 
+(* ------------------------------------------------------------------ the last persist happens-before the end is observable
+   (OrderModel.v: the routine that ends a generation is a program = its statements in source order; a persist is two
+   steps, begin and commit; Load returns the committed record; observers run on other goroutines and re-create the
+   actor under the same persistence name the moment they can observe the end; restart: the observer is the own mailbox)
+
+   [orun pt pr (oinit pt pr evs0 r0) cs]: termination routine pt, restart routine pr, a first generation that applied evs0
+   and ends by restart iff r0, then the schedule cs: steps of the newest generation's goroutine, of every earlier
+   generation's goroutine (its routine may still be running), of helper goroutines, re-invocations of the routine, and
+   the observer launching the next generation (Load; it applies its events; ends by restart or termination).
+   [launches_exact w]: at every launch so far the record loaded rebuilt exactly the state the previous generation had
+   when it ended.  [order_safe]: the decidable ordering condition on a routine. *)
+
+(* persist-then-announce: for EVERY pair of routines in which a persist commits before the first statement that makes
+   the end observable at once (unregistration, notices, closed signal, launch handled inline) with no persist deferred,
+   on another goroutine, or at/after such a statement, and in which a synchronous persist commits before the routine
+   returns if OnLaunch is posted to the own mailbox: every number of generations, every mix of terminations and
+   restarts, every schedule — each generation loads exactly what the previous one had, and the newest state is the
+   whole history. *)
+Theorem C09_recreate_on_notice_exact : forall (pt pr : list stmt), order_safe pt = true -> order_safe pr = true ->
+  forall (evs0 : list Z) (r0 : bool) (cs : list choice),
+    let w := orun pt pr (oinit pt pr evs0 r0) cs in
+    launches_exact w /\ t_val (cur w) = hist w.
+Proof. exact order_sound. Qed.
+Print Assumptions C09_recreate_on_notice_exact.
+
+(* ... because at every moment every earlier generation is retired (no Save in progress, none deferred, none to come),
+   there is no helper goroutine, and whenever the end of the newest generation is observable the committed record
+   already rebuilds its state. *)
+Theorem C09_committed_before_observable : forall (pt pr : list stmt), order_safe pt = true -> order_safe pr = true ->
+  forall (evs0 : list Z) (r0 : bool) (cs : list choice),
+    let w := orun pt pr (oinit pt pr evs0 r0) cs in
+    helpers w = [] /\ Forall retired (olds w) /\ (observable (cur w) = true -> rebuilt (store w) = t_val (cur w)).
+Proof. exact order_sound_quiescent. Qed.
+Print Assumptions C09_committed_before_observable.
+
+(* the order of tryTerminated / tryRestarted as they stand passes the condition (the same is re-established on the
+   statements EXTRACTED from the tree under test on every run: checks/c09.py t3, harness/translate/c09order) *)
+Theorem C09_source_order_exact : forall (evs0 : list Z) (r0 : bool) (cs : list choice),
+  let w := orun src_terminate src_restart (oinit src_terminate src_restart evs0 r0) cs in
+  launches_exact w /\ t_val (cur w) = hist w.
+Proof. exact (order_sound src_terminate src_restart (proj1 src_programs_safe) (proj1 (proj2 src_programs_safe))). Qed.
+Print Assumptions C09_source_order_exact.
+
+(* the form used by the generated instance: facts extracted from a source tree that pass [term_order_ok] /
+   [restart_order_ok] (persists unconditional, order safe, every announce statement found) *)
+Theorem C09_extracted_order_sound : forall (ft fr : list fact), term_order_ok ft = true -> restart_order_ok fr = true ->
+  forall (evs0 : list Z) (r0 : bool) (cs : list choice),
+    let w := orun (prog_of ft) (prog_of fr) (oinit (prog_of ft) (prog_of fr) evs0 r0) cs in
+    launches_exact w /\ t_val (cur w) = hist w.
+Proof. exact order_sound_facts. Qed.
+Print Assumptions C09_extracted_order_sound.
+
+(* the eager observer of the harness (re-create the moment the end is observable, old routine still running) is one
+   of these schedules *)
+Theorem C09_eager_observer_exact : forall (pt pr : list stmt), order_safe pt = true -> order_safe pr = true ->
+  forall (evs0 : list Z) (r0 : bool) (gens : list (list Z * bool)),
+    let w := play pt pr (oinit pt pr evs0 r0) gens in launches_exact w /\ t_val (cur w) = hist w.
+Proof. exact eager_observer_exact. Qed.
+Print Assumptions C09_eager_observer_exact.
+
+(* announce-then-persist (the final persist deferred past the status change: it runs after the unregistration, the
+   notices and the closed signal): REFUTED — the parent re-creates on its notice before the Save has begun. *)
+Theorem C09_announce_then_persist_refuted :
+  exists (evs0 : list Z) (cs : list choice),
+    let w := orun announce_then_persist src_restart (oinit announce_then_persist src_restart evs0 false) cs in
+    ~ launches_exact w /\ t_val (cur w) <> hist w.
+Proof. exact announce_then_persist_refuted. Qed.
+Print Assumptions C09_announce_then_persist_refuted.
+
+(* the restart routine that POSTS OnLaunch to its own mailbox: persist-then-launch and launch-then-persist (even
+   deferred) are both exact — the launch is processed after the routine has returned (covered by
+   C09_recreate_on_notice_exact: [order_safe] accepts them); a persist on another goroutine is REFUTED. *)
+Theorem C09_restart_async_persist_refuted :
+  exists (evs0 : list Z) (cs : list choice),
+    let w := orun src_terminate restart_async_persist (oinit src_terminate restart_async_persist evs0 true) cs in
+    ~ launches_exact w /\ t_val (cur w) <> hist w.
+Proof. exact restart_async_persist_refuted. Qed.
+Print Assumptions C09_restart_async_persist_refuted.
+
+(* the restart routine that handles OnLaunch INLINE (recovery runs inside the routine) has the analogous ordering:
+   persist-then-launch is exact (src_restart_inline passes [order_safe]); launch-then-persist is REFUTED. *)
+Theorem C09_restart_launch_then_persist_refuted :
+  exists (evs0 : list Z) (cs : list choice),
+    let w := orun src_terminate restart_inline_launch_then_persist
+                  (oinit src_terminate restart_inline_launch_then_persist evs0 true) cs in
+    ~ launches_exact w /\ t_val (cur w) <> hist w.
+Proof. exact restart_inline_launch_then_persist_refuted. Qed.
+Print Assumptions C09_restart_launch_then_persist_refuted.
+
 (* ------------------------------------------------------------------ non-vacuity and witnesses *)
 Open Scope Z_scope.
 
@@ -153,3 +242,39 @@ Example C09_record_first_witness :
   = [OEvent 1 (MAdd 1) WAsker false; OEvent 2 (MAdd 2) WAsker true; OEvent 1 (MAdd 3) WAsker false;
      OLaunch (Some (Some [1], [3])) [RSnap [1]; REv 3] [1] [1; 3]; OState [1; 3]].
 Proof. vm_compute. reflexivity. Qed.
+
+(* persist-then-announce, eager observer, four generations (termination, restart, termination): nothing lost *)
+Example C09_example_recreate_on_notice :
+  let w := play src_terminate src_restart (oinit src_terminate src_restart [1; 2] false) [([3], true); ([4; 5], false); ([], false)] in
+  log w = [(Some [1; 2], [1; 2]); (Some [1; 2; 3], [1; 2; 3]); (Some [1; 2; 3; 4; 5], [1; 2; 3; 4; 5])]
+  /\ t_val (cur w) = [1; 2; 3; 4; 5] /\ length (olds w) = 3%nat.
+Proof. vm_compute. auto. Qed.
+
+(* announce-then-persist, the same eager observer: the second generation launches empty (state lost) ... *)
+Example C09_announce_then_persist_lost :
+  let w := orun announce_then_persist src_restart (oinit announce_then_persist src_restart [1; 2; 3] false) lost_schedule in
+  log w = [(None, [1; 2; 3])] /\ t_val (cur w) = [4] /\ hist w = [1; 2; 3; 4].
+Proof. exact announce_then_persist_lost. Qed.
+
+(* ... and a later generation loads the record of the first one (state stale): the second one's event 2 is lost *)
+Example C09_announce_then_persist_stale :
+  let w := orun announce_then_persist src_restart (oinit announce_then_persist src_restart [1] false) stale_schedule in
+  log w = [(Some [1], [1]); (Some [1], [1; 2])] /\ t_val (cur w) = [1; 3] /\ hist w = [1; 2; 3].
+Proof. exact announce_then_persist_stale. Qed.
+
+(* the ordering condition separates them; a deferred or late persist is accepted only when the launch is posted to
+   the own mailbox *)
+Example C09_order_condition :
+  order_safe src_terminate = true /\ order_safe src_restart = true /\ order_safe src_restart_inline = true
+  /\ order_safe announce_then_persist = false /\ order_safe restart_async_persist = false
+  /\ order_safe restart_inline_launch_then_persist = false
+  /\ order_safe [SGuard; SStatus; SAnnounce AUnregister; SPersist; SAnnounce AParent] = false
+  /\ order_safe [SGuard; SDeferPersist; SHandler; SNewInstance; SAnnounce ALaunch] = true
+  /\ order_safe [SGuard; SHandler; SNewInstance; SAnnounce ALaunch] = false.
+Proof. vm_compute. repeat split. Qed.
+
+(* the inline restart routine with the eager observer: nothing lost *)
+Example C09_example_restart_inline :
+  let w := play src_terminate src_restart_inline (oinit src_terminate src_restart_inline [1] true) [([2], true); ([3], false); ([], false)] in
+  log w = [(Some [1], [1]); (Some [1; 2], [1; 2]); (Some [1; 2; 3], [1; 2; 3])] /\ t_val (cur w) = [1; 2; 3].
+Proof. vm_compute. auto. Qed.
